@@ -42,9 +42,11 @@ class WindowModel(models.MultiImageModule):
     out_order: tuple = eqx.field(static=True)
     cross: tuple = eqx.field(static=True)  # ((t, t2), ...)
     use_aux: bool = eqx.field(static=True)
+    half: bool = eqx.field(static=True)
 
-    def __init__(self, spec, past, out_order, cross, use_aux, wseed):
+    def __init__(self, spec, past, out_order, cross, use_aux, wseed, half=False):
         self.spec, self.past, self.out_order, self.cross, self.use_aux = spec, past, out_order, cross, use_aux
+        self.half = half
         W, U, Bv = model_weights(spec, past, wseed)
         self.W = {t: jnp.asarray(v) for t, v in W.items()}
         self.U = {t: jnp.asarray(v) for t, v in U.items()}
@@ -56,7 +58,7 @@ class WindowModel(models.MultiImageModule):
         out = x.empty()
         for t in self.out_order:
             cd, cc = info[t]
-            blk = x[t]
+            blk = x[t].astype(jnp.float32)
             rest = blk.shape[1:]
             dyn = blk[: cd * self.past].reshape((cd, self.past) + rest)
             val = jnp.einsum("js,js...->j...", self.W[t], dyn)
@@ -64,10 +66,10 @@ class WindowModel(models.MultiImageModule):
                 val = val + jnp.einsum("jq,q...->j...", self.U[t], blk[cd * self.past :])
             val = val + self.Bv[t].reshape((cd,) + (1,) * len(rest))
             if t in cross:
-                other = x[cross[t]]
+                other = x[cross[t]].astype(jnp.float32)
                 pw = (jnp.arange(other.size, dtype=jnp.float32) % 7.0 + 1.0).reshape(other.shape)
                 val = val + jnp.mod(jnp.sum(other * pw), MOD)
-            out.append(t[0], t[1], jnp.mod(val, MOD))
+            out.append(t[0], t[1], jnp.mod(val, MOD) + (0.5 if self.half else 0.0))
         if self.use_aux:
             aux_data = aux_data + 1
         return out, aux_data
@@ -103,6 +105,8 @@ class RefWindow:
         frames = [f for ch in self.win[t] for f in ch] + list(self.const[t])
         return np.stack(frames).astype(np.float32)
 
+    half = False
+
     def predict(self, W, U, Bv, cross) -> dict:
         pred = {}
         cross = dict(cross)
@@ -115,13 +119,13 @@ class RefWindow:
             if t in cross:
                 other = self.block(cross[t]).astype(np.float64)
                 pw = (np.arange(other.size) % 7 + 1).reshape(other.shape)
-                c_term = float(np.sum(other * pw) % 257)
+                c_term = float(np.sum(other * pw) % 257)  # multiples of 0.5 stay exact in float32 and float64
             for j in range(cd):
                 v = sum(float(W[t][j, s]) * self.win[t][j][s].astype(np.float64) for s in range(self.past))
                 for q in range(cc):
                     v = v + float(U[t][j, q]) * self.const[t][q].astype(np.float64)
                 v = v + float(Bv[t][j]) + c_term
-                out.append((v % 257).astype(np.float32))
+                out.append(((v % 257) + (0.5 if self.half else 0.0)).astype(np.float32))
             pred[t] = out
         return pred
 
@@ -182,6 +186,9 @@ def gen_plan(rng, profile: dict, seed: int) -> dict:
         "xseed": rng.getrandbits(24),
         "is_torus": rng.random() < 0.5,
         "also_step": rng.random() < 0.5,
+        # the history may be stored in a narrower dtype than the model predicts in (the window must then be promoted,
+        # never the prediction rounded): with such an input every prediction carries a +0.5 so that a cast would show
+        "in_dtype": rng.choice(["float32"] * 8 + ["int32", "float16"]),
     }
 
 
@@ -203,8 +210,8 @@ def _x0(plan, b: int) -> dict:
     return out
 
 
-def _to_mi(blocks: dict, order, D, is_torus):
-    return geom.MultiImage({t: jnp.asarray(blocks[t]) for t in order}, D, is_torus)
+def _to_mi(blocks: dict, order, D, is_torus, dtype="float32"):
+    return geom.MultiImage({t: jnp.asarray(blocks[t]).astype(dtype) for t in order}, D, is_torus)
 
 
 _JIT_ID = jax.jit(lambda m: m)
@@ -231,7 +238,9 @@ def execute(plan: dict, ctx: dict) -> dict:
     consts = {(k, p): cc for k, p, cd, cc in spec if cc}
     site = f"{plan['model_mode']}/{plan['outer']}/in:{plan['in_transport']}"
     W, U, Bv = model_weights(spec, past, plan["wseed"])
-    model = WindowModel(spec, past, out_order, cross, plan["use_aux"], plan["wseed"])
+    in_dtype = plan.get("in_dtype", "float32")
+    half = in_dtype != "float32"
+    model = WindowModel(spec, past, out_order, cross, plan["use_aux"], plan["wseed"], half)
     called: Any = model
     if plan["model_mode"] == "jit":
         called = eqx.filter_jit(model)
@@ -242,6 +251,7 @@ def execute(plan: dict, ctx: dict) -> dict:
     ref_outs, ref_inputs = [], []
     for b in range(nb):
         win = RefWindow(spec, past, x0s[b])
+        win.half = half
         preds, inputs = [], []
         for step in range(n):
             inputs.append({t: win.block(t) for t in order})
@@ -255,7 +265,7 @@ def execute(plan: dict, ctx: dict) -> dict:
 
     # ------------------------------------------------ real rollout
     def build_x(b):
-        x = _to_mi(x0s[b], order, D, plan["is_torus"])
+        x = _to_mi(x0s[b], order, D, plan["is_torus"], in_dtype)
         tr = plan["in_transport"]
         if tr == "jit":
             x = _JIT_ID(x)
@@ -265,7 +275,7 @@ def execute(plan: dict, ctx: dict) -> dict:
         elif tr == "reinsert":
             perm = list(range(len(order)))
             np.random.RandomState(plan["in_perm_seed"]).shuffle(perm)
-            x = _to_mi(x0s[b], [order[i] for i in perm], D, plan["is_torus"])
+            x = _to_mi(x0s[b], [order[i] for i in perm], D, plan["is_torus"], in_dtype)
         if tr != "none":
             bump("in_transport_" + tr)
         return x
@@ -298,6 +308,7 @@ def execute(plan: dict, ctx: dict) -> dict:
         viol("raises", f"{type(e).__name__}: {str(e)[:400]}", site)
         outs, aux = [], None
     bump("model_" + plan["model_mode"])
+    bump("in_dtype_" + in_dtype)
     bump("outer_" + plan["outer"])
 
     for b, out in enumerate(outs):
@@ -347,6 +358,7 @@ def execute(plan: dict, ctx: dict) -> dict:
         evals += 1
         x = build_x(0)
         pr0 = RefWindow(spec, past, x0s[0])
+        pr0.half = half
         pred = pr0.predict(W, U, Bv, cross)
         out_mi = geom.MultiImage({t: jnp.asarray(np.stack(pred[t])) for t in out_order}, D, plan["is_torus"])
         try:
@@ -362,7 +374,7 @@ def execute(plan: dict, ctx: dict) -> dict:
                 viol("step_type_order", {"got": [list(t) for t in nxt.keys()], "input": [list(t) for t in x.keys()]}, site + "/step")
         except Exception as e:
             viol("raises", f"autoregressive_step: {type(e).__name__}: {str(e)[:300]}", site + "/step")
-    kinds = [plan["model_mode"], plan["outer"], plan["in_transport"], f"past{past}", f"n{n}", "aux" if plan["use_aux"] else "noaux"] + [
+    kinds = [plan["model_mode"], plan["outer"], plan["in_transport"], in_dtype, f"past{past}", f"n{n}", "aux" if plan["use_aux"] else "noaux"] + [
         f"{k}{p}:{min(cd, 1)}{min(cc, 1)}" for k, p, cd, cc in spec
     ]
     nontrivial = plan["model_mode"] != "eager" or plan["outer"] != "none" or plan["in_transport"] != "none" or plan["use_aux"]
